@@ -2,6 +2,7 @@ package main
 
 import (
 	"go/types"
+	"reflect"
 	"strings"
 
 	"golang.org/x/tools/go/ssa"
@@ -257,6 +258,16 @@ func init() {
 		t := argTerm(m, a[0])
 		return BVC(64, uint64(m.concretizeInt(t, "Concretize", 256))), true
 	})
+	zz("FieldTags", func(m *Machine, th *Thread, fn *ssa.Function, a []Value) (Value, bool) {
+		// the JSON field names of the dynamic struct type, read from the type information of
+		// the current source: "GoField=jsonname[,omitempty];" per exported field, embedded
+		// frp structs flattened the way encoding/json does
+		iv, _ := a[0].(*IfaceV)
+		if iv == nil || iv.T == nil {
+			m.unsupported("FieldTags of nil interface")
+		}
+		return strConst(fieldTagsOf(iv.T)), true
+	})
 	zz("Note", func(m *Machine, th *Thread, fn *ssa.Function, a []Value) (Value, bool) {
 		m.ps.notes = append(m.ps.notes, m.concStr(a[0], "note"))
 		return nil, true
@@ -300,3 +311,30 @@ func itoa(i int) string {
 }
 
 var _ = types.Typ
+
+func fieldTagsOf(t types.Type) string {
+	if p, ok := t.Underlying().(*types.Pointer); ok {
+		t = p.Elem()
+	}
+	st, ok := t.Underlying().(*types.Struct)
+	if !ok {
+		return "<not a struct>"
+	}
+	var sb strings.Builder
+	for i := 0; i < st.NumFields(); i++ {
+		f := st.Field(i)
+		if !f.Exported() {
+			continue
+		}
+		tag := reflect.StructTag(st.Tag(i)).Get("json")
+		if f.Embedded() && tag == "" {
+			sb.WriteString(fieldTagsOf(f.Type()))
+			continue
+		}
+		if tag == "" {
+			tag = f.Name()
+		}
+		sb.WriteString(f.Name() + "=" + tag + ";")
+	}
+	return sb.String()
+}
